@@ -323,6 +323,31 @@ def rule_eviction(ctx):
         got = "pop" in reach
         ctx.ob(R, "row len%sCAP next%sfront" % (c1, c2), exp == got, "pop %s" % ("reachable" if got else "unreachable") if exp == got else
                ("an unpersisted or needed block can be evicted (len %s CAP, persisted.next() %s front)" % (c1, c2) if got else "eviction never happens for the specified case"), f.loc())
+    # every eviction is preceded by its own test of the CURRENT front: between two pops the comparison is re-evaluated
+    cfg = ctx.cfg(f)
+    tests = []
+    for bb in range(len(f.blocks)):
+        si = T.switch_info(bb)
+        if si is None:
+            continue
+        sc = si[0]
+        while sc[0] == "un":
+            sc = sc[2]
+        ops = None
+        if sc[0] == "bin" and len(sc) == 4:
+            ops = (sc[2], sc[3])
+        elif sc[0] == "call" and len(sc[2]) == 2:
+            ops = (sc[2][0], sc[2][1])
+        if ops and m2(ops[0], ops[1]):
+            tests.append(bb)
+    ok_re = bool(tests)
+    for pb in pops:
+        nxt = [y for _, y in cfg.succ[pb]]
+        r = cfg.reach_from(nxt, avoid_blocks=frozenset(tests))
+        if set(pops) & r:
+            ok_re = False
+    ctx.ob(R, "front re-tested before every eviction", ok_re, "between two pop_front calls the comparison persisted.next() > front.number() is evaluated again (on the new front)" if ok_re else
+           "after one eviction the next pop_front can happen without re-testing that the (new) front block is persisted: blocks that are queued but not yet persisted can be evicted", f.loc())
     # the front that is compared is cache[0]
     idx = [T.args_of(c) for c in T.calls() if c["q"] == "std::ops::Index::index"]
     ok = any(a[1] == ("const", 0) and field_path(a[0])[1][-1:] == ["cache"] for a in idx)
